@@ -27,13 +27,16 @@ Del(t, x) == [k |-> "del", inner |-> t, x |-> x]
 Hole == [k |-> "hole"]
 
 Bases  == { <<>>, <<U(3, "s")>>, <<U(8, "s"), Bool>> }
-Extras == { <<U(8, "s")>>, <<Bool>>, <<U(12, "t"), Var(U(3, "s"), 2)>> }
+F16 == [k |-> "f", n |-> 16, m |-> "s"]
+Extras == { <<U(8, "s")>>, <<Bool>>, <<U(12, "t"), Var(U(3, "s"), 2)>>,
+            <<F16>>,                                     \* a float appended at a byte boundary
+            <<Del(St(<<U(8, "s")>>), 16)>> }             \* the appended field is itself of a delimited type
 Ctxs == { St(<<Hole>>),
           St(<<U(3, "s"), Hole, U(8, "s")>>),
           St(<<Fix(Hole, 2), U(8, "s")>>),
           St(<<Var(Hole, 2), Bool>>),
           St(<<Un(<<U(8, "s"), Hole>>), U(5, "t")>>),
-          St(<<Del(St(<<Hole, U(8, "s")>>), 96), U(8, "s")>>),
+          St(<<Del(St(<<Hole, U(8, "s")>>), 256), U(8, "s")>>),
           Un(<<Bool, Hole>>),
           Hole }                                   \* the revision itself at the top level (with its header)
 
